@@ -83,24 +83,29 @@ def check_theorems(module):
     src = open(path).read()
     ns = re.search(r"^namespace\s+([\w.]+)", src, flags=re.M)
     nsname = ns.group(1) if ns else "Hb"
-    # lake replays the cached log of an up-to-date module, so the `#print axioms` lines are in `out`;
-    # keep only this module's theorems. Fall back to re-elaboration if they are not there.
-    own = "\n".join(l for l in out.splitlines() if ("'" + nsname + ".") in l)
-    if "depends on axioms" not in own and "does not depend on any axioms" not in own:
+    # lake replays the cached log of an up-to-date module, so the `#print axioms` lines are in `out`
+    # (an axiom list may wrap over several lines); keep only this module's theorems. Fall back to
+    # re-elaboration if they are not there.
+    def parse(text):
+        th, ax = [], set()
+        for m in re.finditer(r"'([\w.']+)' depends on axioms:\s*\[([^\]]*)\]", text, flags=re.S):
+            if not m.group(1).startswith(nsname + "."):
+                continue
+            th.append(m.group(1))
+            for a in m.group(2).replace("\n", " ").split(","):
+                a = a.strip()
+                if a:
+                    ax.add(a)
+        for m in re.finditer(r"'([\w.']+)' does not depend on any axioms", text):
+            if m.group(1).startswith(nsname + "."):
+                th.append(m.group(1))
+        return th, ax
+    theorems, axioms = parse(out)
+    if not theorems:
         rc, out2 = sh(["lake", "env", "lean", path], cwd=LEAN, timeout=1800)
         if rc != 0:
             problems.append("re-elaboration of %s failed" % module)
-        own = out2
-    out = own
-    theorems, axioms = [], set()
-    for m in re.finditer(r"'([\w.']+)' depends on axioms: \[([^\]]*)\]", out):
-        theorems.append(m.group(1))
-        for a in m.group(2).split(","):
-            a = a.strip()
-            if a:
-                axioms.add(a)
-    for m in re.finditer(r"'([\w.']+)' does not depend on any axioms", out):
-        theorems.append(m.group(1))
+        theorems, axioms = parse(out2)
     declared = re.findall(r"^theorem\s+([\w.']+)", strip_comments(src), flags=re.M)
     printed = set(t.split(".")[-1] for t in theorems)
     for d in declared:
